@@ -283,3 +283,30 @@ HARMLESS += [
   "old": "        if len(positions) > max_group_size:\n            continue",
   "new": "        if not len(positions) <= max_group_size:\n            continue"},
 ]
+
+_IS = "adcgen/intermediate_states.py"
+MUTANTS += [
+ {"id": "c04-precursor-lower-factor", "prop": "C04", "file": _IS,
+  "old": "                1, factorial(n_ov_lower[\"occ\"]) * factorial(n_ov_lower[\"virt\"])\n            )",
+  "new": "                1, factorial(n_ov_lower[\"occ\"]) * factorial(n_ov_lower[\"occ\"])\n            )"},
+ {"id": "c04-precursor-gs-projector-order", "prop": "C04", "file": _IS,
+  "old": "                        state = get_gs_wfn(term[0], 'ket')",
+  "new": "                        state = get_gs_wfn(term[1], 'ket')"},
+ {"id": "c04-precursor-no-gs-projection", "prop": "C04", "file": _IS,
+  "old": "        if self.variant == \"pp\":\n            # import all ground state wave functions",
+  "new": "        if self.variant == \"pp\" and order > 1:\n            # import all ground state wave functions"},
+ {"id": "c04-precursor-sign", "prop": "C04", "file": _IS,
+  "old": "                    projection += (prefactor * state * i1).expand()\n                projection = evaluate_deltas(projection)\n                res -= (norm * projection).expand()",
+  "new": "                    projection += (prefactor * state * i1).expand()\n                projection = evaluate_deltas(projection)\n                res += (norm * projection).expand()"},
+ {"id": "c04-precursor-lower-bra", "prop": "C04", "file": _IS,
+  "old": "                        i1 = (self.intermediate_state(order=term[1],\n                                                      space=lower_space,\n                                                      braket=\"bra\",",
+  "new": "                        i1 = (self.intermediate_state(order=term[1],\n                                                      space=lower_space,\n                                                      braket=\"ket\","},
+ {"id": "c03-precursor-cache-range", "prop": "C03", "file": _IS,
+  "old": "            def get_gs_wfn(o, bk): return gs_psi[bk][o] if o > order//2 else \\",
+  "new": "            def get_gs_wfn(o, bk): return gs_psi[bk][o] if o >= order//2 else \\"},
+]
+HARMLESS += [
+ {"id": "c04-h-precursor-skip-zero", "prop": "C04", "file": _IS,
+  "old": "                    i1 = wicks(i1, simplify_kronecker_deltas=True)\n                    projection += (prefactor * state * i1).expand()",
+  "new": "                    i1 = wicks(i1, simplify_kronecker_deltas=True)\n                    if i1 is S.Zero:\n                        continue\n                    projection += (prefactor * state * i1).expand()"},
+]
